@@ -57,7 +57,16 @@ impl JobTask {
                     processes::ProcessWaitResult::Stopped => Ok(JobTaskWaitResult::Stopped),
                 }
             }
-            Self::Internal(handle) => Ok(JobTaskWaitResult::Completed(handle.await??)),
+            Self::Internal(handle) => {
+                // A task whose commands ended with an error (a failed expansion, an assignment
+                // to a readonly variable, ...) has finished all the same: report it as a failed
+                // job rather than as a failure of the wait, which would leave the caller
+                // unable to wait for the remaining tasks and jobs.
+                let result = handle.await?;
+                Ok(JobTaskWaitResult::Completed(result.unwrap_or_else(|err| {
+                    ExecutionResult::from(crate::results::ExecutionExitCode::from(&err))
+                })))
+            }
         }
     }
 
